@@ -27,7 +27,8 @@ func init() {
 func buildC18(c *CheckCtx) {
 	c.Technique = "deductive: WP over go/ssa of Pool.Get/NewPool (both pools) against ghost-set contracts, discharged by z3"
 	c.addFunctionUnits(func(con *Contract) bool {
-		return hasProp(con, "C18") && (con.Pkg == modPath+"/pkg/token" || con.Pkg == modPath+"/pkg/position")
+		// the pools themselves, and every constructor that creates one (NewPool's blockSize >= 1 at its call sites)
+		return hasProp(con, "C18")
 	})
 	c.assume("distinct cells do not interfere (Go memory model); pool objects stay reachable while referenced (GC)")
 }
@@ -83,6 +84,10 @@ func buildC15(c *CheckCtx) {
 	kinds := astKinds(c.W)
 	c.checkPrinter(kinds)
 	c.CoverageExtra["kinds"] = len(kinds)
+	// default lexemes against the terminals the grammars store in each slot
+	sub := &CheckCtx{Prop: c.Prop, W: c.W, Assume: map[string]bool{}, Trusted: map[string]bool{}, CoverageExtra: map[string]interface{}{}}
+	runs := sub.addGram(gramWant{Shape: true}) // only for the slot-terminal table; its obligations belong to C01/C02
+	c.checkDefaultLexemes(kinds, runs)
 	c.assume("the trace extractor and comparison (E-TRACE normaliser) are part of the trusted base; SMT plays no role for this property")
 	c.assume("source order of a node's parts = declared field order of its struct in pkg/ast/node.go (the file's convention, confirmed for all kinds on the pinned tree); the grammar-side check of the same order is E-GRAM conserve (C02)")
 }
